@@ -300,15 +300,36 @@ func FieldOf(v ssa.Value) (base ssa.Value, field string, ok bool) {
 		if st == nil {
 			return nil, "", false
 		}
-		return x.X, st.Field(x.Field).Name(), true
+		return x.X, FieldName(st, x.Field), true
 	case *ssa.Field:
 		st, _ := x.X.Type().Underlying().(*types.Struct)
 		if st == nil {
 			return nil, "", false
 		}
-		return x.X, st.Field(x.Field).Name(), true
+		return x.X, FieldName(st, x.Field), true
 	}
 	return nil, "", false
+}
+
+// Role aliases. The rules name a few PRIVATE identifiers of the repository
+// (the frame type and its fields, the peek slot, …). So that renaming one of
+// them does not turn into an alarm, the rules package finds these identifiers
+// by role once per load (rules.SetupRoles) and registers the canonical name
+// the rules use; FieldOf / FieldName / NamedOf / CallInfo.Name report the
+// canonical name for them. Exported API names are never aliased.
+var (
+	FieldAlias = map[*types.Var]string{}
+	TypeAlias  = map[*types.TypeName]string{}
+	FuncAlias  = map[*types.Func]string{}
+)
+
+// FieldName is the (canonical) name of field i of st.
+func FieldName(st *types.Struct, i int) string {
+	f := st.Field(i)
+	if a, ok := FieldAlias[f]; ok {
+		return a
+	}
+	return f.Name()
 }
 
 func derefStruct(t types.Type) *types.Struct {
@@ -326,6 +347,9 @@ func NamedOf(t types.Type) string {
 		t = p.Elem()
 	}
 	if n, ok := t.(*types.Named); ok {
+		if a, ok := TypeAlias[n.Obj()]; ok {
+			return a
+		}
 		return n.Obj().Name()
 	}
 	return ""
@@ -410,6 +434,11 @@ func InfoOf(c *ssa.CallCommon) CallInfo {
 		return CallInfo{Name: v.Name(), Builtin: true}
 	case *ssa.Function:
 		ci := CallInfo{Name: v.Name(), Static: v}
+		if fo, ok := v.Object().(*types.Func); ok {
+			if a, ok := FuncAlias[fo]; ok {
+				ci.Name = a
+			}
+		}
 		if v.Pkg != nil {
 			ci.Pkg = v.Pkg.Pkg.Path()
 		} else if v.Object() != nil && v.Object().Pkg() != nil {
